@@ -40,7 +40,7 @@ func genLoadSpec(t *rapid.T) loadSpec {
 }
 
 func genC09(t *rapid.T) c09Prog {
-	cfg := sim.GenConfig{MaxReplicas: 4, MaxOps: ev.Scale(28, 60), MinOps: 2, Codecs: []int{0, 1}, AppendBias: 2, LargeOneIn: ev.Scale(96, 64)}
+	cfg := sim.GenConfig{MaxReplicas: 4, MaxOps: ev.Scale(28, 60), MinOps: 2, Codecs: []int{0, 1}, AppendBias: 2, LargeOneIn: ev.Scale(96, 64), WithLoad: true}
 	w := sim.Gen(t, cfg)
 	p := c09Prog{World: w, Replica: rapid.IntRange(0, 11).Draw(t, "replica")}
 	p.Merge = rapid.Bool().Draw(t, "merge")
